@@ -352,7 +352,8 @@ func (s *Server) HandleReadWriter(
 func (s *Server) HandleReader(ctx context.Context, reader io.Reader) ([]byte, http.Header, error) {
 	var errorRecoverBuffer windowBuffer
 	bufferedReader := bufio.NewReaderSize(io.TeeReader(reader, &errorRecoverBuffer), bufferSize)
-	requestIsBatch := isBatch(bufferedReader)
+	requestIsBatch, skipped := isBatch(bufferedReader)
+	errorRecoverBuffer.skippedBytes = skipped
 
 	var resp *response
 	var header http.Header
@@ -472,17 +473,27 @@ func (s *Server) handleBatchRequest(ctx context.Context, batchReq []json.RawMess
 	return result, finalHeaders, err // todo: fix batch request aggregate header
 }
 
-func isBatch(reader *bufio.Reader) bool {
+// isBatch reports whether the first non-whitespace byte of the input is '['.
+// Peek cannot look further than the reader's buffer, so leading whitespace that fills
+// the buffer is discarded; the number of discarded bytes is returned to keep the
+// offsets of later parse errors absolute.
+func isBatch(reader *bufio.Reader) (batch bool, skipped int) {
 	for n := 1; ; n++ {
 		buf, err := reader.Peek(n)
+		if errors.Is(err, bufio.ErrBufferFull) {
+			discarded, _ := reader.Discard(n - 1)
+			skipped += discarded
+			n = 0
+			continue
+		}
 		if err != nil {
-			return false
+			return false, skipped
 		}
 		switch buf[n-1] {
 		case ' ', '\t', '\r', '\n':
 			continue
 		default:
-			return buf[n-1] == '['
+			return buf[n-1] == '[', skipped
 		}
 	}
 }
